@@ -625,3 +625,17 @@ M("C01", "series sorted by its labels before the delay embedding", EEOF_, "     
 M("C15", "threshold reached within np.isclose (Decomposer)", "xeofs/linalg/decomposer.py", "(cum_expvar >= self.n_modes).sum(self.component_dim_name)", "((cum_expvar >= self.n_modes) | np.isclose(cum_expvar, self.n_modes)).sum(self.component_dim_name)", "SIB.threshold.exact")
 M("C15", "threshold reached within np.isclose (_SVD)", "xeofs/linalg/_numpy/_svd.py", "(cum_expvar >= self.n_modes).sum()", "((cum_expvar >= self.n_modes) | np.isclose(cum_expvar, self.n_modes)).sum()", "SIB.threshold.exact")
 B("C15", "threshold mask through a named local", "xeofs/linalg/_numpy/_svd.py", "            n_modes_required = (\n                self.n_modes_precompute - (cum_expvar >= self.n_modes).sum() + 1\n            )\n", "            is_reached = cum_expvar >= self.n_modes\n            n_modes_required = self.n_modes_precompute - is_reached.sum() + 1\n")
+
+# ---------------------------------------------------------------- round 10: rules for the changes no check reported
+MICF = "xeofs/preprocessing/multi_index_converter.py"
+XU = "xeofs/utils/xarray_utils.py"
+EOFF = "xeofs/single/eof.py"
+BMSS = "xeofs/single/base_model_single_set.py"
+EROT = "xeofs/single/eof_rotator.py"
+M("C02", "MultiIndex rebuilt from the coordinates lying along the dimension", MICF, "indexes = [idx for idx in original_index.indexes.keys() if idx != dim]", "indexes = [name for name, coord in original_index.coords.items() if name != dim and coord.dims == (dim,)]", "MIRROR.state.multiindex.restore.levels")
+B("C02", "MultiIndex rebuilt from the names of the remembered index", MICF, "indexes = [idx for idx in original_index.indexes.keys() if idx != dim]", "indexes = [idx for idx in original_index.to_index().names if idx != dim]")
+M("C07", "sample dimensions reported in the data's own order", XU, "        sample_dims = convert_to_dim_type(sample_dims)\n        feature_dims: DimsList = [", "        sample_dims = convert_to_dim_type(sample_dims)\n        sample_dims = tuple(d for d in data[0].dims if d in sample_dims)\n        feature_dims: DimsList = [", "LAYOUT.dims.user_order")
+M("C01", "total variance floored inside the ratio accessor", EOFF, 'exp_var_ratio = self.data["explained_variance"] / self.data["total_variance"]', 'exp_var_ratio = self.data["explained_variance"] / self.data["total_variance"].clip(min=np.finfo(float).eps)', "NORM.ratio")
+B("C01", "ratio through named locals", EOFF, 'exp_var_ratio = self.data["explained_variance"] / self.data["total_variance"]', 'expvar = self.data["explained_variance"]\n        totvar = self.data["total_variance"]\n        exp_var_ratio = expvar / totvar')
+M("C17", "norms matched to the scores by alignment", BMSS, '            norms = self.data["norms"].sel(mode=scores.mode)\n            scores = scores * norms\n', '            scores = scores * self.data["norms"]\n', "GUARD.modes.select.entry")
+M("C11", "pseudo norms as a share of the retained squared singular values", EROT, "        norms = (expvar * (n_samples - 1)) ** 0.5\n", '        norms = (expvar / expvar.sum("mode") * (model.data["norms"].sel(mode=slice(1, n_modes)) ** 2).sum("mode")) ** 0.5\n', "NORM.pseudo")
